@@ -83,6 +83,11 @@ class Analysis:
     def leq(self, a, b):
         return a == b
 
+    def scope_exit(self, entry_state, state, partial=False, test=None):
+        """Called on states that leave a compound statement (if / loop / try) normally or loop back.
+        partial=True: an `if` one of whose branches did not complete normally (early exit); test = its condition."""
+        return state
+
     def exc_matches(self, exc: str, handler_types: List[str]) -> bool:
         return any(self.prog.exc_is(exc, h) for h in handler_types)
 
@@ -181,13 +186,21 @@ class Engine:
             self._expr_raises(s.test, state, out)
             t = self.a.branch(s.test, True, state)
             f = self.a.branch(s.test, False, state)
+            t_norm = f_norm = False
             if t is not None:
-                out.absorb(self.block(s.body, t))
+                bo = self.block(s.body, t)
+                t_norm = bool(bo.normal)
+                out.absorb(bo)
             if f is not None:
                 if s.orelse:
-                    out.absorb(self.block(s.orelse, f))
+                    bo = self.block(s.orelse, f)
+                    f_norm = bool(bo.normal)
+                    out.absorb(bo)
                 else:
+                    f_norm = True
                     out.normal.append(f)
+            partial = (t is not None and not t_norm) or (f is not None and not f_norm)
+            out.normal = [self.a.scope_exit(state, x, partial=partial, test=s.test) for x in out.normal]
         elif isinstance(s, (ast.While, ast.For, ast.AsyncFor)):
             out = self.loop(s, state)
         elif isinstance(s, (ast.With, ast.AsyncWith)):
@@ -198,6 +211,7 @@ class Engine:
             out.absorb(self.block(s.body, cur))
         elif isinstance(s, ast.Try):
             out = self.try_(s, state)
+            out.normal = [self.a.scope_exit(state, x) for x in out.normal]
         else:
             raise AnalysisError(f"unsupported statement {type(s).__name__} in {self.fn.qual}: {norm(s)[:80]}")
         return out
@@ -213,7 +227,7 @@ class Engine:
         for _ in range(MAX_ITER):
             entry, _exit = self._loop_entry(s, head, is_while, const_true, Completions())
             body_out = self.block(s.body, entry) if entry is not None else Completions()
-            back = self._join([state] + body_out.normal + body_out.continues)
+            back = self._join([state] + [self.a.scope_exit(state, x) for x in body_out.normal + body_out.continues])
             if self.a.leq(back, head) and self.a.leq(head, back):
                 break
             head = back
@@ -234,7 +248,7 @@ class Engine:
             else:
                 exits.append(exit_state)
         exits += body_out.breaks
-        j = self._join(exits)
+        j = self._join([self.a.scope_exit(state, x) for x in exits])
         if j is not None:
             out.normal.append(j)
         return out
